@@ -9,6 +9,8 @@ def firstDup (l : List Nat) : Option Nat :=
   | [] => none
   | x :: xs => if xs.contains x then some x else firstDup xs
 
+def ttSuffix (tt : Nat) : String := if tt == 0 then "" else s!"^{tt}"
+
 def isEmptyAgent (c : AgD) : Bool := c.pairs.isEmpty && c.rems.isEmpty && c.locs.isEmpty && c.sel.isNone && c.pend == 0
 
 /-- clauses that speak about one snapshot -/
@@ -25,7 +27,7 @@ def c06Static (x : AgInfo) (c : AgD) : Verdicts :=
     let cap (net : Nat) : Nat :=
       (c.locs.filter fun l => l.addr == p.la && l.net == net).length *
       (c.rems.filter fun r => r.addr == p.ra && r.ty == p.rty && r.net == net).length
-    let total := cap 0 + cap 1
+    let total := cap 0 + cap 1 + cap 2 + cap 3
     let v : Verdicts :=
       if total == 0 then [("C06", s!"pair {p.id} ({p.la}>{p.ra} type {p.rty}) is not formed from a current local and a current remote candidate of one network type")]
       else if n > total then [("C06", s!"the pair ({p.la}>{p.ra} type {p.rty}) is listed {n} times for {total} candidate combination(s)")]
@@ -36,21 +38,26 @@ def c06Static (x : AgInfo) (c : AgD) : Verdicts :=
     | none => []
   -- a remote candidate is its type, transport address (network type + canonical address: the literal it was
   -- signalled with does not matter) and related address
-  let keys := c.rems.map fun r => (r.ty, r.net, r.addr, r.rel)
+  -- (the tcptype is part of the candidate: a passive and a simultaneous-open candidate on one address are two)
+  let keys := c.rems.map fun r => (r.ty, r.net, r.addr, r.rel ++ ttSuffix r.tt)
   let rec dupKey (l : List (Nat × Nat × Nat × String)) : Option (Nat × Nat × Nat × String) :=
     match l with
     | [] => none
     | k :: ks => if ks.contains k then some k else dupKey ks
   let v4 : Verdicts := match dupKey keys with
     | some (ty, net, addr, rel) =>
-      let forms := (c.rems.filter fun r => r.ty == ty && r.net == net && r.addr == addr && r.rel == rel).map (·.form)
+      let forms := (c.rems.filter fun r => r.ty == ty && r.net == net && r.addr == addr && r.rel ++ ttSuffix r.tt == rel).map (·.form)
       let mixed := match forms with | f :: fs => fs.any (· != f) | [] => false
       [("C06", s!"remote candidate {ty}@{net}.{addr} is listed twice (not deduplicated)" ++
         (if mixed then ": the same transport address was signalled through different address literals (canonical and IPv4-mapped / expanded form)" else ""))]
     | none => []
   let v5 : Verdicts := c.rems.filterMap fun r =>
-    if x.blk.contains (r.addr / 16) then some ("C06", s!"remote candidate {r.ty}@{r.net}.{r.addr} has an address rejected by the remote IP filter") else none
-  v1 ++ v2 ++ v3 ++ v4 ++ v5
+    if x.blk.contains ((r.addr % 1048576) / 16) then some ("C06", s!"remote candidate {r.ty}@{r.net}.{r.addr} has an address rejected by the remote IP filter") else none
+  -- "Remote candidates … never include TCP-active candidates": whatever the network type and the candidate type
+  -- (a peer-reflexive discovery included)
+  let v6 : Verdicts := c.rems.filterMap fun r =>
+    if r.tt == 1 then some ("C06", s!"remote candidate {r.ty}@{r.net}.{r.addr} with tcptype active is listed") else none
+  v1 ++ v2 ++ v3 ++ v4 ++ v5 ++ v6
 
 /-- clauses that relate a snapshot to the one before the op -/
 def c06Dyn (x : AgInfo) (p c : AgD) : Verdicts :=
@@ -73,8 +80,11 @@ def c06Dyn (x : AgInfo) (p c : AgD) : Verdicts :=
         (if selOk then [] else [("C06", s!"pair {q.id} lost the selection when its peer-reflexive remote was superseded")])
       else acc) []
 
-/-- `addremote X ty net addr prio rel [form]` accepted as a NEW signalled (not peer-reflexive) candidate: no
-peer-reflexive candidate with its transport address stays listed (RFC 8838 §11.4 supersession). -/
+/-- `addremote X ty net addr prio rel [form [tt]]` accepted as a NEW signalled (not peer-reflexive) candidate: no
+peer-reflexive candidate with its transport address stays listed (RFC 8838 §11.4 supersession).  The transport
+address is taken as the implementation defines it (candidate.go: "IP, Port, NetworkType, TCPType"): a
+peer-reflexive candidate without a tcptype at the address of a signalled TCP candidate that has one is NOT judged
+(observation TCP-1, notes/C06-tcp.md). -/
 def c06Supersede (x : AgInfo) (w : String) (p c : AgD) (toks : List String) : Verdicts :=
   if x.closed then [] else
   match toks with
@@ -82,10 +92,16 @@ def c06Supersede (x : AgInfo) (w : String) (p c : AgD) (toks : List String) : Ve
     match ty.toNat?, net.toNat?, addr.toNat? with
     | some ty, some net, some addr =>
       if who != w || ty == 3 then [] else
-      let form : Nat := match rest with | [_, _, f] => (f.toNat?).getD 0 | _ => 0
-      let cnt (a : AgD) : Nat := (a.rems.filter fun r => r.ty == ty && r.net == net && r.addr == addr && r.form == form).length
+      -- on tcp4/tcp6 the implementation never equates a server-reflexive / relay candidate (resolved to a
+      -- *net.UDPAddr) with a peer-reflexive one (*net.TCPAddr): not judged (observation TCP-1)
+      if net ≥ 2 && (ty == 2 || ty == 4) then [] else
+      -- address ids are tagged with the transport of the network they are used on
+      let addr := (if net ≥ 2 then 1048576 else 0) + addr % 1048576
+      let form : Nat := match rest with | _ :: _ :: f :: _ => (f.toNat?).getD 0 | _ => 0
+      let tt : Nat := match rest with | [_, _, _, t] => ((ttOf t)).getD 0 | _ => 0
+      let cnt (a : AgD) : Nat := (a.rems.filter fun r => r.ty == ty && r.net == net && r.addr == addr && r.form == form && r.tt == tt).length
       if cnt c ≤ cnt p then [] else
-      match c.rems.find? fun r => r.ty == 3 && r.net == net && r.addr == addr &&
+      match c.rems.find? fun r => r.ty == 3 && r.net == net && r.addr == addr && r.tt == tt &&
           (p.rems.any fun o => o.ty == 3 && o.net == net && o.addr == addr && o.rel == r.rel && o.form == r.form) with
       | some r =>
         [("C06", s!"peer-reflexive remote candidate 3@{net}.{addr} is still listed after the signalled candidate {ty}@{net}.{addr} with the same transport address was added (not superseded)" ++
@@ -117,7 +133,7 @@ def dupExcess (c : AgD) (la ra rty : Nat) : Nat :=
   let cap (net : Nat) : Nat :=
     (c.locs.filter fun l => l.addr == la && l.net == net).length *
     (c.rems.filter fun r => r.addr == ra && r.ty == rty && r.net == net).length
-  n - (cap 0 + cap 1)
+  n - (cap 0 + cap 1 + cap 2 + cap 3)
 
 /-- static clauses, reported on the line where a violation appears (not again while it persists).  When two
 pairs were merged by a peer-reflexive supersession the reason says so (known-finding wording). -/
